@@ -44,7 +44,10 @@ Closed == /\ IsEvent("closed")
           /\ \A i \in 1..Len(Ev.names) : Ev.names[i].lead = 0 /\ Climb(Ev.names[i].comps, 0)
           /\ UNCHANGED count
 
-Next == CheckEv \/ WriteNamed \/ WritePath \/ Closed
+(* the session could not be closed (a name that cannot be encoded at all, e.g. a lone surrogate): no archive, nothing stored wrongly *)
+Refused == IsEvent("refused") /\ UNCHANGED count
+
+Next == CheckEv \/ WriteNamed \/ WritePath \/ Closed \/ Refused
 Spec == Init /\ [][Next]_vars
 
 Done == /\ (l = Len(Traces[tid]) + 1) => PrintT(<<"ACC", tid>>)
